@@ -43,6 +43,7 @@ NPTY = {"uint8": "U8", "int8": "I8", "int16": "I16", "uint16": "U16", "int32": "
         "uint64": "U64", "float32": "F32", "float64": "F64"}
 RANGE = {"uint8": (0, 255), "int16": (-32768, 32767), "int32": (-2 ** 31, 2 ** 31 - 1)}
 AXES = ["grid", "cube", "cube_corners", "world"]
+LAYOUTS = ["contiguous", "fortran", "strided"]
 TOL = "1 # 100000"
 _CACHE = {}
 
@@ -87,7 +88,7 @@ def rand_grid(rng, D):
         size[-1] = 1
     sp = rng.sample([0.5, 0.75, 1.0, 1.25, 1.5, 2.0, 2.5, f32(0.8), f32(0.3), 3.0], D)
     org = [rng.randint(-200, 200) / 4 if rng.random() < 0.8 else f32(rng.uniform(-100, 100)) for _ in range(D)]
-    return {"size": size, "origin": org, "spacing": sp, "direction": rand_direction(rng, D)}
+    return {"size": size, "origin": org, "spacing": sp, "direction": rand_direction(rng, D), "align_corners": rng.random() < 0.5}
 
 
 def rand_values(rng, dtype, n):
@@ -132,6 +133,12 @@ def mk_case(rng, kind, fmt, D, C, dtype, compress, **extra):
     n = C * int(np.prod(g["size"]))
     c = {"kind": kind, "fmt": fmt, "C": C, "dtype": dtype, "compress": compress, "grid": g, "values": rand_values(rng, dtype, n)}
     c.update(extra)
+    if kind in ("roundtrip", "convert"):
+        # memory layout of the tensor handed to the writer: the file must not depend on it
+        c["layout"] = rng.choice(LAYOUTS + (["expanded"] if C > 1 and not extra.get("no_channel_dim") else []))
+        if c["layout"] == "expanded":
+            m = n // C
+            c["values"] = c["values"][:m] * C
     return c
 
 
@@ -170,19 +177,24 @@ def gen_cases(ctx):
     # flow fields
     for fmt in FORMATS:
         for D in (2, 3):
-            for ax in (AXES if thorough else rng.sample(AXES, 2)):
+            # "from_grid": vectors in the grid's own normalised axes (Axes.from_grid), on an align_corners=False grid
+            for ax in ((AXES if thorough else rng.sample(AXES, 2)) + ["from_grid"]):
                 for dt in (("float32", "float64") if thorough else (rng.choice(["float32", "float64"]),)):
                     g = rand_grid(rng, D)
                     g["size"] = [max(2, s) for s in g["size"]]
+                    if ax == "from_grid":
+                        g["align_corners"] = False
                     n = D * int(np.prod(g["size"]))
                     cases.append({"kind": "flow", "fmt": fmt, "C": D, "dtype": dt, "compress": rng.random() < 0.5, "axes": ax, "grid": g,
-                                  "values": [rng.randint(-64, 64) / 32 for _ in range(n)]})
+                                  "layout": rng.choice(LAYOUTS), "values": [rng.randint(-64, 64) / 32 for _ in range(n)]})
     for D in (2, 3):
-        for ax in AXES:
+        for ax in AXES + ["from_grid"]:
             g = rand_grid(rng, D)
             g["size"] = [max(2, s) for s in g["size"]]
+            if ax == "from_grid":
+                g["align_corners"] = False
             n = D * int(np.prod(g["size"]))
-            cases.append({"kind": "flow_sitk", "fmt": "", "C": D, "dtype": "float64", "axes": ax, "grid": g,
+            cases.append({"kind": "flow_sitk", "fmt": "", "C": D, "dtype": "float64", "axes": ax, "grid": g, "layout": rng.choice(LAYOUTS),
                           "values": [rng.randint(-64, 64) / 32 for _ in range(n)]})
     return cases
 
@@ -377,7 +389,7 @@ def case_checks(c, r):
         N = int(np.prod(size))
         u = np.array(c["values"], dtype=float).reshape(D, N)
         w = np.array(r["world"]["values"], dtype=float).reshape(D, N)
-        ax = {"grid": "GRID", "cube": "CUBE", "cube_corners": "CUBE_CORNERS", "world": "WORLD"}[c["axes"]]
+        ax = {"grid": "GRID", "cube": "CUBE", "cube_corners": "CUBE_CORNERS", "world": "WORLD"}[r.get("axes_in", c["axes"])]
         nvec = qc_vec([float(s) for s in size])
         idx = sorted(set([0, N - 1, N // 2]))
         terms, terms_b = [], []
@@ -402,6 +414,8 @@ def correspondence(ctx):
         D = len(c["grid"]["size"])
         tag = f"{c['kind']}:{FAMILY.get(c['fmt'], 'memory')}:D{D}:{'scalar' if c['C'] == 1 else 'multi'}"
         dist[tag] = dist.get(tag, 0) + 1
+        if c.get("layout"):
+            dist["layout:" + c["layout"]] = dist.get("layout:" + c["layout"], 0) + 1
         for name, term, what in case_checks(c, r):
             if term is None:
                 failures.append({"case": brief(c), "check": name, "why": what})
@@ -544,10 +558,14 @@ def evaluate(c, r):
             out.append((tagr + f":raises-{rd['error']}", f"{rentry}('{c['fmt']}') of a file written by the library raises {rd['error']}: {rd['msg'][:100]}"))
         else:
             compare_image(c, rd, gref, f"{entry}/{rentry} '{c['fmt']}'", out, tagr)
+            if c.get("entry") == "Image" and rd["grid"].get("align_corners") != gref["align_corners"]:
+                out.append((tagr + ":align-corners-flag-changed", f"Image.read(align_corners={gref['align_corners']}) returns a grid with the other flag"))
         ff = r.get("from_file")
         if ff is not None and not c.get("no_channel_dim"):
             if "error" in ff:
                 out.append((f"C18:Grid.from_file:{fam}:D{D}:{sc}:raises-{ff['error']}", f"Grid.from_file('{c['fmt']}') raises {ff['error']}: {ff['msg'][:100]}"))
+            elif ff.get("align_corners") != gref["align_corners"]:
+                out.append((f"C18:Grid.from_file:{fam}:D{D}:{sc}:align-corners-flag-changed", f"Grid.from_file(align_corners={gref['align_corners']}) returns the other flag"))
             elif not c.get("no_channel_dim") and not (ff["size"] == list(gref["size"]) and close(ff["origin"], gref["origin"]) and close(ff["spacing"], gref["spacing"])
                                                        and close(ff["direction"], gref["direction"])):
                 out.append((f"C18:Grid.from_file:{fam}:D{D}:{sc}:grid-changed", f"Grid.from_file('{c['fmt']}') gives {ff}, written {gref}"))
@@ -585,8 +603,11 @@ def evaluate(c, r):
         N = int(np.prod(size))
         u = np.array(c["values"], dtype=float).reshape(D, N)
         R, s, n = np.array(gi["direction"]), np.array(gi["spacing"]), np.array(size, dtype=float)
-        scale = {"grid": np.ones(D), "cube": n / 2, "cube_corners": (n - 1) / 2}.get(c["axes"])
-        world = u if c["axes"] == "world" else (R @ np.diag(s) @ np.diag(scale) @ u)
+        axes_in = r.get("axes_in", c["axes"])
+        if c["axes"] == "from_grid" and axes_in != ("cube_corners" if gi["align_corners"] else "cube"):
+            out.append((tag + ":from-grid-axes", f"Axes.from_grid of an align_corners={gi['align_corners']} grid is {axes_in}"))
+        scale = {"grid": np.ones(D), "cube": n / 2, "cube_corners": (n - 1) / 2}.get(axes_in)
+        world = u if axes_in == "world" else (R @ np.diag(s) @ np.diag(scale) @ u)
         sv = r.get("sitk", {})
         if "error" in sv:
             out.append((tag0 + ":sitk-cannot-read", f"SimpleITK cannot read the flow field file: {sv['msg'][:100]}"))
@@ -604,6 +625,9 @@ def evaluate(c, r):
             if r["back"]["dtype"] != c["dtype"] or not close(back, u, 1e-4):
                 out.append((tag + ":axes-roundtrip", f"vectors do not return to their original representation (max dev {np.abs(back - u).max():.3g}, dtype {r['back']['dtype']})"))
             g = rd.get("grid")
+            if g and g.get("align_corners") != gi["align_corners"]:
+                out.append((tag0 + ":align-corners-flag-changed", f"flow field written from an align_corners={gi['align_corners']} grid and read with "
+                            f"align_corners={gi['align_corners']} has a grid with align_corners={g.get('align_corners')}"))
             if g and not (g["size"] == list(size) and close(g["origin"], gi["origin"]) and close(g["spacing"], gi["spacing"]) and close(g["direction"], gi["direction"])):
                 out.append((tag0 + ":grid-changed", f"flow field grid came back as {g}, written {gi}"))
     return out
